@@ -9207,6 +9207,16 @@ bool Tokenizer::isGarbageExpr(const Token *start, const Token *end, bool allowSe
     return false;
 }
 
+// Replace the escape sequence str[pos..pos+len) with the character it denotes. A backslash stays
+// escaped, it must not be taken for the start of another escape sequence. Returns the number of
+// characters written.
+static std::size_t replaceEscapeSequence(std::string &str, std::size_t pos, std::size_t len, char c)
+{
+    const std::string repl = (c == '\\') ? std::string("\\\\") : std::string(1U, c);
+    str.replace(pos, len, repl);
+    return repl.size();
+}
+
 std::string Tokenizer::simplifyString(const std::string &source)
 {
     std::string str = source;
@@ -9231,14 +9241,14 @@ std::string Tokenizer::simplifyString(const std::string &source)
                 sz++;
             std::istringstream istr(str.substr(i+1, sz-1));
             istr >> std::oct >> c;
-            str = str.replace(i, sz, std::string(1U, static_cast<char>(c)));
+            i += replaceEscapeSequence(str, i, sz, static_cast<char>(c)) - 1U;
             continue;
         }
 
         if (sz <= 2)
             i++;
         else if (i+sz < str.size())
-            str.replace(i, sz, std::string(1U, static_cast<char>(c)));
+            i += replaceEscapeSequence(str, i, sz, static_cast<char>(c)) - 1U;
         else
             str.replace(i, str.size() - i - 1U, "a");
     }
